@@ -875,4 +875,25 @@ def gRun (g : MObj) : List GOp → List (Outcome × List Call × NameObs)
     let r := gStep g op
     (r.2.1, r.2.2, gObserve r.1) :: gRun r.1 ops
 
+/-! ### the Object.* functions of §15.2.3 called with a non-object first argument
+    (builtin_object.go: every one starts with `obj := call.Argument(0).object(); if obj == nil → TypeError`,
+    create accepts null, and getOwnPropertyNames falls through to `newArray(0)`, builtin_object.go:331-333) -/
+
+inductive ObjFn
+  | getPrototypeOf | getOwnPropertyDescriptor | getOwnPropertyNames | create | defineProperty | defineProperties
+  | seal | freeze | preventExtensions | isSealed | isFrozen | isExtensible | keys
+deriving DecidableEq, Repr
+
+inductive PrimArg | number | string | boolean | undefined | null | missing
+deriving DecidableEq, Repr
+
+inductive PrimRes | typeError | emptyArray | object
+deriving DecidableEq, Repr
+
+def objFnPrim (f : ObjFn) (a : PrimArg) : PrimRes :=
+  match f, a with
+  | .create, .null => .object
+  | .getOwnPropertyNames, _ => .emptyArray
+  | _, _ => .typeError
+
 end OttoVerif.C07
